@@ -104,7 +104,7 @@ def run_harness(slot_overlay, target, name, timeout_s, extra_args=()):
     return r
 
 
-def run_harnesses(names, timeout_s, parallel=4):
+def run_harnesses(names, timeout_s, parallel=4, extra_args=()):
     """Each harness in its own slot (own target dir), up to `parallel` at a time."""
     from concurrent.futures import ThreadPoolExecutor
     results = {}
@@ -113,7 +113,7 @@ def run_harnesses(names, timeout_s, parallel=4):
         slot = Slot()
         try:
             slot.prepare()
-            return name, run_harness(slot.overlay, slot.target, name, timeout_s)
+            return name, run_harness(slot.overlay, slot.target, name, timeout_s, extra_args=extra_args)
         finally:
             slot.release()
     with ThreadPoolExecutor(max_workers=min(parallel, NSLOTS)) as ex:
@@ -130,6 +130,8 @@ def warm():
         slot.prepare()
         r = run_harness(slot.overlay, slot.target, "k_to_vector_u32", 1500)
         print("engine K warm-up:", r["status"], f"{r['secs']:.0f}s")
+        r = run_harness(slot.overlay, slot.target, "k_to_vector_u32", 1500, extra_args=("--features", "parallel"))
+        print("engine K warm-up (--features parallel):", r["status"], f"{r['secs']:.0f}s")
         # replicate the warmed target directory into the other slots
         for i in range(NSLOTS):
             d = os.path.join(SCRATCH, f"kslot-{i}")
